@@ -8,7 +8,7 @@
   *as they are in the tree with fixes/C06-*.patch applied* (F14: `lt` of two `None` / two missing
   markers is `False`; F15b: dict keys are ordered by `lt`, not by native `<`; F15a: `Dict.sym_hash`
   combines the items with a `frozenset`; F15: `lt` walks dict keys in sorted order, object fields in
-  declaration order). Defects that are kept (known findings) are mirrored: `pg.hash` of a plain `list`/`dict` raises (F16),
+  declaration order). Defects that are kept (known findings) are mirrored:
   `lt` between instances of two distinct classes with one `__qualname__` never terminates (F39).
 
   Numbers are exact dyadic rationals `m / 2^e` carrying their Python type as a tag (bool / int /
@@ -285,27 +285,28 @@ def isMissing : Val → Bool
   | _ => false
 
 mutual
-  /-- `pg.hash` (`base.sym_hash`); for tuples: native `hash`, whose elements hash through
-  `__hash__` = `sym_hash` for symbolic values. -/
+  /-- `pg.hash` (`base.sym_hash`, after fix F16): plain lists / dicts hash like the symbolic
+  containers they are `eq` to, tuples element-wise through `sym_hash`. Every tuple handed to
+  `sym_hash` is hashed as `hash(tuple([sym_hash(e) for e in x]))`, hence the `reh` layers. The
+  result type stays `Except` (no branch raises any more). -/
   def hashTerm : Val → Except Err HTerm
     | .atom a => .ok (.atom a)
-    | .list true xs =>
+    | .list _ xs =>
         match hashList xs with
-        | .ok ts => .ok (.tup [.cls .list, .tup (ts.map .reh)])
+        | .ok ts => .ok (.tup [.reh (.cls .list), .reh (.tup ((ts.map .reh).map .reh))])
         | .error e => .error e
-    | .list false _ => .error .typeError                 -- hash(list)
     | .tuple xs =>
         match hashList xs with
-        | .ok ts => .ok (.tup ts)
+        | .ok ts => .ok (.tup (ts.map .reh))
         | .error e => .error e
-    | .dict true kvs =>
+    | .dict _ kvs =>
         match hashItems kvs with
-        | .ok ts => .ok (.tup [.cls .dict, .fset ts])
+        | .ok ts => .ok (.tup [.reh (.cls .dict), .reh (.fset ts)])
         | .error e => .error e
-    | .dict false _ => .error .typeError                 -- hash(dict)
     | .obj c kvs =>
         match hashItems kvs with
-        | .ok ts => .ok (.tup [.cls (.user c), .reh (.tup [.cls .dict, .fset ts])])
+        | .ok ts => .ok (.tup [.reh (.cls (.user c)),
+                               .reh (.reh (.tup [.reh (.cls .dict), .reh (.fset ts)]))])
         | .error e => .error e
   def hashList : List Val → Except Err (List HTerm)
     | [] => .ok []
@@ -314,7 +315,7 @@ mutual
         | .ok t, .ok ts => .ok (t :: ts)
         | .error e, _ => .error e
         | _, .error e => .error e
-  /-- `(k, sym_hash(v)) for k, v in items if v != MISSING_VALUE`. -/
+  /-- `(k, sym_hash(v)) for k, v in items if v != MISSING_VALUE` (each pair hashed natively). -/
   def hashItems : List (Atom × Val) → Except Err (List HTerm)
     | [] => .ok []
     | (k, v) :: rest =>
